@@ -42,6 +42,10 @@ def c_op(o):
         return "LROpen %d %s %s %s" % (o["id"], coq_bool(o["unc"]), cz(o["o"]), coq_bool(o["ok"]))
     if k == "rnext":
         return "LRNext %d %s %s" % (o["id"], c_list([c_rec(r) for r in (o.get("recs") or [])]), coq_N(o["end"]))
+    if k == "cleanc":
+        return "LCleanC %s" % cz(o["ttl"])
+    if k == "rread":
+        return "LRRead %s %s %s %s %s" % (coq_bool(o["unc"]), cz(o["start"]), cz(o["stop"]), coq_bool(o["found"]), c_list([c_rec(r) for r in (o.get("recs") or [])]))
     if k == "cleanroll":
         return "LCleanRoll %s %s" % (cz(o["ttl"]), c_list(["(%s, %s, %s)" % (
             c_list([c_msg(m) for m in a["msgs"]]), coq_N(a["res"]), c_list([cz(x) for x in (a.get("offs") or [])])) for a in (o.get("during") or [])]))
@@ -63,7 +67,7 @@ def eval_log_cases(ctx, cases, tag, shard=40):
     jobs = []
     for s in range(0, len(cases), shard):
         part = cases[s:s + shard]
-        txt = "From LB Require Import Base.Prelude Log.Model Log.Retention Log.Check.\nOpen Scope Z_scope.\n"
+        txt = "From LB Require Import Base.Prelude Log.Model Log.Retention Log.Compact Log.Check.\nOpen Scope Z_scope.\n"
         sentinel = "{| lc_maxb := 100; lc_cc := false; lc_lim := mkLimits 0 0 0; lc_ops := [LState 12345 0 0] |}"
         txt += "Definition CS : list lcase := [\n %s].\n" % ";\n ".join([c_case(c) for c in part] + [sentinel])
         txt += "Definition M := Eval vm_compute in lcases_mismatches CS 0.\nPrint M.\n"
